@@ -10,8 +10,10 @@
    identities (clipping commutes with k > 0, prevalence is scale invariant, sums are homogeneous).
    For whole models without infection flows, flow order (C15_flow_order_model) and compartment order
    (C15_compartment_order_model) are proved on get_comp_rates itself.  Two stratifications applied in either order give
-   the same compartments (C15_stratification_order_compartments).  Strata-order equivariance and the rest of the
-   stratification-order equivariance of the build (flows, populations, trajectories), renaming, "flow added before = after an unadjusted stratification", and the order statements for models
+   the same compartments (C15_stratification_order_compartments); listing strata in another order permutes the
+   compartments (C15_strata_order_compartments) and the copies of every flow (C15_strata_order_flow_copies); renaming compartments commutes with stratifying
+   (C15_renaming_compartments).  The rest of the strata- / stratification-order equivariance of the build (flows,
+   populations, trajectories), renaming, "flow added before = after an unadjusted stratification", and the order statements for models
    with infection flows are established by the metamorphic oracle and the correspondence only (DESIGN.md 6.15). *)
 From Coq Require Import QArith Qcanon List String Bool Permutation.
 Import ListNotations.
@@ -254,3 +256,33 @@ Example C15_stratification_order_nonvacuous :
   List.length (stratify_comps s2 (stratify_comps s1 cs)) = 11%nat
   /\ stratify_comps s2 (stratify_comps s1 cs) <> stratify_comps s1 (stratify_comps s2 cs).
 Proof. split; [vm_compute; reflexivity | vm_compute; intro H; discriminate H]. Qed.
+
+(* listing the strata of a stratification in another order permutes the compartments it produces and changes nothing
+   else - for every compartment list and every permutation of the strata *)
+Theorem C15_strata_order_compartments :
+  forall s s' cs,
+    s_name s' = s_name s -> s_comps s' = s_comps s -> Permutation (s_strata s) (s_strata s') ->
+    Permutation (stratify_comps s cs) (stratify_comps s' cs).
+Proof. exact strata_order_permutes_compartments. Qed.
+Print Assumptions C15_strata_order_compartments.
+
+(* an injective renaming of the compartment names commutes with stratifying: stratifying the renamed compartments by the
+   stratification that lists the renamed names gives the renamed compartments, in the same order *)
+Theorem C15_renaming_compartments :
+  forall f s s' cs,
+    (forall a b : string, f a = f b -> a = b) ->
+    s_name s' = s_name s -> s_strata s' = s_strata s -> s_comps s' = map f (s_comps s) ->
+    stratify_comps s' (map (rename_comp f) cs) = map (rename_comp f) (stratify_comps s cs).
+Proof. exact renaming_commutes_with_stratification. Qed.
+Print Assumptions C15_renaming_compartments.
+
+(* ... and the copies a stratification makes of a flow: listing its strata in another order permutes the copies (each
+   with the same endpoints, parameter and adjustments as before) - for every flow kind, with or without adjustments *)
+Theorem C15_strata_order_flow_copies :
+  forall nm k l l' cmps sp fa ia mx f fl,
+    Permutation l l' ->
+    stratify_flow {| s_name := nm; s_kind := k; s_strata := l; s_comps := cmps; s_split := sp; s_fadj := fa; s_iadj := ia; s_mix := mx |} f = Ok fl ->
+    exists fl', stratify_flow {| s_name := nm; s_kind := k; s_strata := l'; s_comps := cmps; s_split := sp; s_fadj := fa; s_iadj := ia; s_mix := mx |} f = Ok fl'
+                /\ Permutation fl fl'.
+Proof. exact strata_order_permutes_flow_copies. Qed.
+Print Assumptions C15_strata_order_flow_copies.
